@@ -45,7 +45,8 @@ def strategy(tier):
         lambda t: {"k": "chunks", **t[0], "cuts": t[1]})
     errors = st.fixed_dictionaries({"k": st.just("errors"), "pair": st.integers(0, len(I.PAIRS) - 1),
                                     "what": st.sampled_from(["undef", "undef-allowed", "redef", "redef-twice", "redef-twice"]),
-                                    "temp": st.booleans(), "suffix": st.booleans(), "two_calls": st.booleans()})
+                                    "temp": st.booleans(), "suffix": st.booleans(), "two_calls": st.booleans(),
+                                    "dataref": st.booleans()})
     return st.one_of(multi, multi, chunks, chunks, errors)
 
 
@@ -190,8 +191,10 @@ def _errors(spec):
         # suffix for temporary labels, and the references may arrive in one or in two assemble() calls
         uname = (I.temp_prefix(isa, fmt) + "nosuch") if spec.get("temp") else "nosuch"
         usuffix = "_9" if spec.get("suffix") else None
-        line = (I.render(isa, ref, uname) if ref else f".long {uname}") + "\n"
-        out.classes += [f"temp={bool(spec.get('temp'))}", f"suffix={bool(usuffix)}", f"two_calls={bool(spec.get('two_calls'))}"]
+        # (referenced by a call - the proxy then has a CFG edge - or only by a data word)
+        line = (I.render(isa, ref, uname) if ref and not spec.get("dataref") else f".long {uname}") + "\n"
+        out.classes += [f"temp={bool(spec.get('temp'))}", f"suffix={bool(usuffix)}", f"two_calls={bool(spec.get('two_calls'))}",
+                        f"dataref={bool(spec.get('dataref'))}"]
         a = Assembler(m, allow_undef_symbols=(what == "undef-allowed"), temp_symbol_suffix=usuffix)
         text = line + line
         try:
